@@ -78,8 +78,8 @@ claim("C09", "exploration", "codec",
       "DESIGN.md §7 C09")
 
 claim("C17", "exploration", "part",
-      "runtime oracle: direct calls of every partitioner constructor/option against an independent FNV-1a reference (keys with negative and MinInt32 hashes found by meet-in-the-middle search at run time), plus producer scenarios with recording partitioners against the simulated cluster with leaderless subsets",
-      "Direct: 50 000 (quick) / 5 million (thorough) Partition calls over constructors x key classes x partition counts 1..64, 2^30, 2^31-1; range, consistency, reference equality (sarama rule and Kafka toPositive rule), round-robin cycles, manual, custom hash and custom fallback actually used. Producer: the partition at the cluster and in the outcome equals the choice; keyed messages of consistency-requiring partitioners are offered all partitions, others only writable ones; out-of-range / error / no partition => error outcome and nothing on the wire.",
+      "runtime oracle: direct calls of every partitioner constructor/option against an independent FNV-1a reference (keys with negative and MinInt32 hashes found by meet-in-the-middle search at run time), plus producer scenarios with recording partitioners against the simulated cluster with leaderless subsets (one or two topics served by partitioner instances of one constructor); race detector",
+      "Direct: 50 000 (quick) / 5 million (thorough) Partition calls over constructors x key classes x partition counts 1..64, 2^30, 2^31-1; range, consistency, reference equality (sarama rule and Kafka toPositive rule), round-robin cycles, manual, custom hash and custom fallback actually used. Producer: the partition at the cluster and in the outcome equals the choice; keyed messages of consistency-requiring partitioners are offered all partitions, others only writable ones; out-of-range / error / no partition => error outcome and nothing on the wire; equal keys of a topic go to equal indices.",
       "Held on the calls and scenarios of the run.",
       "DESIGN.md §7 C17")
 
